@@ -5,6 +5,7 @@
 pub mod engine;
 pub mod alloc_count;
 pub mod capi_util;
+pub mod capi_util_misc;
 pub mod cy;
 pub mod cyw;
 pub mod hist;
